@@ -2,6 +2,7 @@ CONSTANTS
   KeepFirstError = TRUE
   RecoverPerStage = TRUE
   FirstErrorWins = TRUE
+  ErrReadAtCompletion = TRUE
 SPECIFICATION TraceSpec
 INVARIANTS AtMostOnce OnlyAfterAll ErrorReported PendingSane PreOrderOK NoOpAfterFailure FailureIsOutcome WalkComplete
 CONSTRAINT HighWater
